@@ -1216,7 +1216,8 @@ func (h *RequestHeader) InitContentLengthWithValue(contentLength int) {
 // from 'multipart/form-data; boundary=...' Content-Type.
 func (h *RequestHeader) MultipartFormBoundary() []byte {
 	b := h.ContentType()
-	if !bytes.HasPrefix(b, bytestr.MIMEFormData) {
+	// media type and parameter names are case-insensitive (RFC 7231, 3.1.1.1)
+	if !hasPrefixFold(b, bytestr.MIMEFormData) {
 		return nil
 	}
 	b = b[len(bytestr.MIMEFormData):]
@@ -1231,7 +1232,7 @@ func (h *RequestHeader) MultipartFormBoundary() []byte {
 			n++
 		}
 		b = b[n:]
-		if !bytes.HasPrefix(b, bytestr.StrBoundary) {
+		if !hasPrefixFold(b, bytestr.StrBoundary) {
 			if n = bytes.IndexByte(b, ';'); n < 0 {
 				return nil
 			}
@@ -1252,6 +1253,10 @@ func (h *RequestHeader) MultipartFormBoundary() []byte {
 		return b
 	}
 	return nil
+}
+
+func hasPrefixFold(b, prefix []byte) bool {
+	return len(b) >= len(prefix) && utils.CaseInsensitiveCompare(b[:len(prefix)], prefix)
 }
 
 // ConnectionClose returns true if 'Connection: close' header is set.
